@@ -252,11 +252,18 @@ def run(oc, tier, seed):
                "index dump and three queries are compared with a fresh `db create` of a copy of the final files; "
                "non-trivial = every history (>= 2 index commands)")
     witness(eng, oc)
-    for i in range(n):
-        ok = run_history(eng, rng, oc, allow_unclean=(i % 3 == 2))
-        oc.nontriv(("h", i))
-        if not ok:
+    budget = 25
+    for i in range(n + 25):
+        if i >= n and not oc.corr_mismatch:
             break
+        ok = run_history(eng, rng, oc, allow_unclean=(i % 3 == 2) and not oc.corr_mismatch)
+        oc.nontriv(("h", i))
+        if any(f[3] is None for f in oc.spec_fail):
+            break
+        if not ok:
+            budget -= 1          # model and implementation differ: search on for a history on which the property fails
+            if budget <= 0:
+                break
     oc.samples.append(gen_history(random.Random(seed), False)[1])
     eng.close()
 
